@@ -134,6 +134,14 @@ func realMain(run *hx.Run) {
 		bigBlocks(run, rng.Fork(uint64(7000+k)), k)
 	}
 	run.Notes["t_big_s"] = time.Since(t0).Seconds()
+	ownErrs := 2
+	if run.Thorough() {
+		ownErrs = 12
+	}
+	for k := 0; k < ownErrs; k++ {
+		current = fmt.Sprintf("own-block error branches %d", k)
+		ownBlockErrorBranches(run, rng.Fork(uint64(9000+k)), k)
+	}
 	for k := 0; k < forkCodes; k++ {
 		current = fmt.Sprintf("fork-divergent-code tree %d", k)
 		forkDivergentCode(run, rng.Fork(uint64(8000+k)), k)
